@@ -14,7 +14,8 @@ Line-protocol handler for property C10. Bytes travel as hex (`-` = empty), numbe
   match <chars> <s> none|<a:b>       → <RSTART> <RLENGTH> ok <hex>|panic     (substr(s, RSTART, RLENGTH) in the same mode)
   sub <global> <s> <repl> <a:b>*     → <count> <hex>
   expand <match> <repl>              → <hex>
-  split <s> <sep>                    → <n> <hex>*
+  split <s> <sep>                    → <n> <hex>*            (sep 20 = strings.Fields)
+  case <upper> <s> <from:to>*        → <hex>                 (tolower/toupper; from:to = Go's mapping of the valid multi-byte runes)
   rsplit <s> <a:b>*                  → <n> <hex>*
   laws <s> <a:b>*                    → wf=<0|1> aligned=<0|1>
 -/
@@ -52,6 +53,13 @@ def parseBool (w : String) : Option Bool :=
 def parsePair (w : String) : Option (Nat × Nat) :=
   match w.splitOn ":" with
   | [a, b] => match a.toNat?, b.toNat? with
+    | some a, some b => some (a, b)
+    | _, _ => none
+  | _ => none
+
+def parseHexPair (w : String) : Option (Bytes × Bytes) :=
+  match w.splitOn ":" with
+  | [a, b] => match fromHex a, fromHex b with
     | some a, some b => some (a, b)
     | _, _ => none
   | _ => none
@@ -124,8 +132,17 @@ def handle (args : List String) : String :=
   | ["split", s, sep] =>
     match fromHex s, fromHex sep with
     | some s, some sep =>
-      if sep = [32] ∨ (runes sep).length > 1 then "unsupported" else showList (awkSplitLit s sep)
+      if sep = [32] then showList (stringsFields s)
+      else if (runes sep).length > 1 then "unsupported" else showList (awkSplitLit s sep)
     | _, _ => "bad-request"
+  | "case" :: up :: s :: pairs =>
+    match parseBool up, fromHex s, pairs.mapM parseHexPair with
+    | some up, some s, some pairs =>
+      let uni : Bytes → Bytes := fun r => match pairs.find? (·.1 == r) with
+        | some p => p.2
+        | none => r
+      toHex (mapCase (if up then asciiUpper else asciiLower) uni s)
+    | _, _, _ => "bad-request"
   | "rsplit" :: s :: ms =>
     match fromHex s, ms.mapM parsePair with
     | some s, some ms => showList (awkSplitRegex s ms)
